@@ -251,6 +251,33 @@ def deep_problem(buf: bytes, cls) -> Optional[Tuple[str, bytes]]:
     return None
 
 
+_WT_OF = {}
+for _t in _VARINT_T:
+    _WT_OF[_t] = wire.VARINT
+for _t in _I32_T:
+    _WT_OF[_t] = wire.I32
+for _t in _I64_T:
+    _WT_OF[_t] = wire.I64
+
+
+def _inner_mismatch(fi, num: int, wt: int) -> bool:
+    """True if, inside the payload of field fi, inner field `num` is KNOWN and `wt` cannot carry its type."""
+    def fits_type(pt: str) -> int:
+        return _WT_OF.get(pt, wire.LEN)
+    if fi.is_map:
+        if num not in (1, 2):
+            return False
+        return wt != fits_type(fi.map_types[num - 1])
+    if fi.wraps:
+        return num == 1 and wt != fits_type(fi.wraps)
+    if fi.py_cls in (datetime, timedelta):
+        return num in (1, 2) and wt != wire.VARINT
+    if isinstance(fi.py_cls, type) and issubclass(fi.py_cls, betterproto.Message):
+        f2 = class_info(fi.py_cls).by_number.get(num)
+        return f2 is not None and wt not in declared_wire_types(f2)
+    return False
+
+
 def _canon(buf: bytes):
     """Order-insensitive rendering of a well-formed field sequence (groups recursively)."""
     out = []
@@ -573,15 +600,43 @@ class _Run:
                 inner_nums = [f2.number for f2 in class_info(fi.py_cls).fields][:6] or [1]
             for num in inner_nums[: 1 + tape.draw(3, "nested-sub-n")]:
                 wt = tape.choice([wire.VARINT, wire.I64, wire.LEN, wire.I32], "nested-sub-wt")
-                inner = wire.tag(num, wt) + self.wellformed_payload(wt)
+                occs = [(num, wt, wire.tag(num, wt) + self.wellformed_payload(wt))]
                 if tape.draw(2, "nested-sub-twice"):
                     wt2 = tape.choice([wire.VARINT, wire.I64, wire.LEN, wire.I32], "nested-sub-wt2")
-                    inner += wire.tag(tape.choice(inner_nums, "nested-sub-num2"), wt2) + self.wellformed_payload(wt2)
-                occ = wire.f_len(fi.number, inner)
+                    num2 = tape.choice(inner_nums, "nested-sub-num2")
+                    occs.append((num2, wt2, wire.tag(num2, wt2) + self.wellformed_payload(wt2)))
+                if tape.draw(3, "nested-sub-after-good") == 2 and fi.is_map:
+                    # ... arriving right after a complete, well-formed entry of the same map
+                    good_entries = [f.raw if hasattr(f, "raw") else enc[f.start:f.end] for f in top if f.num == fi.number]
+                    lead = good_entries[0] if good_entries else b""
+                else:
+                    lead = b""
+                inner = b"".join(o[2] for o in occs)
+                clean = b"".join(o[2] for o in occs if not _inner_mismatch(fi, o[0], o[1]))
                 at = bounds[tape.draw(len(bounds), "ins-at")]
-                self.judge(cls, enc[:at] + occ + enc[at:], "nested-wire-type-substitution", "any",
-                           detail=f"field {fi.name} (#{fi.number}) carrying inner field #{num} with wire type {wt};")
+                data = enc[:at] + lead + wire.f_len(fi.number, inner) + enc[at:]
+                st = self.judge(cls, data, "nested-wire-type-substitution", "any",
+                                detail=f"field {fi.name} (#{fi.number}) carrying inner field #{num} with wire type {wt};")
                 stats["fault:nested-wire-type-substitution"] += 1
+                if st == "ok" and clean != inner:
+                    # sentence 3, one level down: the non-fitting inner occurrences must not change what the known
+                    # fields decode to - compared with the SAME input without them, through the same decoder
+                    twin = enc[:at] + lead + wire.f_len(fi.number, clean) + enc[at:]
+                    a = self._decode_one(cls, data, self.primary)
+                    b = self._decode_one(cls, twin, self.primary)
+                    self.evals += 2
+                    if a[0] == "ok" and b[0] == "ok":
+                        try:
+                            same = struct_eq(a[1], b[1])
+                        except Exception as e:  # noqa: BLE001
+                            raise Violation("C17.M4", "compare-raised:nested", f"{type(e).__name__}: {e}")
+                        if not same:
+                            raise Violation("C17.M4", "known-field-altered:nested-wire-type-substitution",
+                                            f"[nested-wire-type-substitution] via {self.ENTRY_NAMES[self.primary]} field {fi.name} "
+                                            f"(#{fi.number}): payload {inner.hex()} holds inner occurrences under non-fitting wire "
+                                            f"types; with them {data.hex()[:120]} decodes to {short(a[1], 120)}, without them "
+                                            f"({clean.hex()}) to {short(b[1], 120)}")
+                        stats["probe:nested-mismatch-compared-with-its-removal"] += 1
         # (j) well-formed but ODD occurrences under the FITTING wire type: varints that no writer of this
         #     schema would emit (2 for a bool, 10-byte values, non-minimal encodings), all-ones fixed-width
         #     payloads, an unpacked element next to a packed list.  Judged by M1-M3 only (types, re-encoding).
@@ -668,6 +723,7 @@ class _Run:
 
 
 class CorruptSim(Simulator):
+    isolate_runs = True
     name = "corruptsim"
     property_id = "C17"
     level = "fault_enumeration"
